@@ -860,6 +860,53 @@ func substExpr(e *SExpr, m map[string]*SExpr) *SExpr {
 			delete(m2, v.Name)
 		}
 		m = m2
+		// capture avoidance: a bound variable that occurs in a substituted argument is renamed
+		ren := map[string]*SExpr{}
+		var nv []SParam
+		for _, v := range e.Vars {
+			clash := false
+			for _, r := range m {
+				if mentions(r, v.Name) {
+					clash = true
+				}
+			}
+			if clash {
+				fresh := v.Name + "_b"
+				for {
+					again := false
+					for _, r := range m {
+						if mentions(r, fresh) {
+							again = true
+						}
+					}
+					if !again {
+						break
+					}
+					fresh += "_b"
+				}
+				ren[v.Name] = &SExpr{Op: "ident", Name: fresh, Pos: e.Pos}
+				nv = append(nv, SParam{fresh, v.Type})
+			} else {
+				nv = append(nv, v)
+			}
+		}
+		if len(ren) > 0 {
+			e2 := *e
+			e2.Vars = nil // plain renaming pass over body and triggers (no shadowing of the renamed names)
+			e2.Op = "rename"
+			body := substExpr(&SExpr{Op: "tuple", Args: e.Args}, ren)
+			var trig [][]*SExpr
+			for _, tr := range e.Trig {
+				var ntr []*SExpr
+				for _, t := range tr {
+					ntr = append(ntr, substExpr(t, ren))
+				}
+				trig = append(trig, ntr)
+			}
+			e = &SExpr{Op: e.Op, Vars: nv, Args: body.Args, Trig: trig, Pos: e.Pos, Name: e.Name}
+			c = *e
+			c.Args = make([]*SExpr, len(e.Args))
+		}
 		c.Trig = nil
 		for _, tr := range e.Trig {
 			var ntr []*SExpr
